@@ -73,11 +73,12 @@ PROPS = {
         "streams": pool_streams(60, 600) + pool_streams(150, 2000, gen="pool-billing", prefix="billing") + [
             # the operator's price flag through the built binary (pool.go: flag parsing and wiring)
             {"name": "poolbin-flags", "component": "poolbin", "cases": {"quick": 30, "thorough": 200}},
-        ],
+        ] + conc_streams(8, 120),  # a credit whose store transaction is retried is still given once (freshcredit)
+        "race": True,
         "monitor": monitors.c02_binary,
     },
     "C03": {
-        "level_text": "The minimum-balance decision logic is stated outright in both directions (connect_refused_iff, update_cutoff_iff, hosts_never_refused, cutoff_disconnects) as Lean theorems over the balance-manager and pool models, which are compared with the real code on both drivers, with deposits injected through the contract proxy. Also through the built pool binary started with generated --contract.min-balance values (amounts with and without units, fractions, negatives, unparsable ones), against Model/Ether.lean (Props/C03E: no unit turns an amount into zero).",
+        "level_text": "The minimum-balance decision logic is stated outright in both directions (connect_refused_iff, update_cutoff_iff, hosts_never_refused, cutoff_disconnects) as Lean theorems over the balance-manager and pool models, which are compared with the real code on both drivers, with deposits injected through the contract proxy. Also through the built pool binary started with generated --contract.min-balance values (amounts with and without units, fractions, negatives, unparsable ones), against Model/Ether.lean (Props/C03E: no unit turns an amount into zero; only `off` switches the minimum off - only_off_disables_minimum, C03 zero_minimum_refuses_overdrawn), including clients billed below zero by a billable keep-alive (kbill).",
         "level_note": POOL_NOTE,
         "lean_modules": ["Vipnode.Props.C03", "Vipnode.Props.C03E"],
         "streams": pool_streams(60, 600) + pool_streams(150, 2000, gen="pool-minbal", prefix="minbal") + [
@@ -90,11 +91,15 @@ PROPS = {
         "level_text": "Over an ideal signature scheme (laws as hypotheses, satisfiable: toyScheme), the signed payload determines method, identity, nonce and parameters (payload_injective, with the bracket-freeness of every registered RPC name re-proved by `decide` on names regenerated from the method registry), so any alteration or foreign key is refused (altered_is_refused, other_key_refused), honest requests are accepted (honest_accepted) and every signed endpoint of the pool model changes state only for a request signed by the identity it names (endpoint_acts_only_if_signed). The implementation is driven with real keys and real signatures: valid requests plus single-component alterations on every signed endpoint, state dumped after each.",
         "level_note": POOL_NOTE + " Modelled rather than verified: ECDSA/Keccak/EIP-191 (ideal scheme) and the injectivity of encoding/json on the request types (ArrayEncoder hypothesis, sampled by the per-field alteration stream).",
         "lean_modules": ["Vipnode.Props.C04"],
-        "streams": pool_streams(60, 600) + pool_streams(150, 1500, gen="pool-nonce", prefix="auth"),
+        "streams": pool_streams(60, 600) + pool_streams(150, 1500, gen="pool-nonce", prefix="auth") + [
+            # verification is a function of the request alone: many identities verified at once
+            {"name": "conc-sigs", "component": "conc", "gen": "conc-sigs", "opts": {"driver": "memory"}, "cases": {"quick": 3, "thorough": 40}, "no_shrink": True, "race": True, "corpus_filter": "^$"},
+        ],
+        "race": True,
         "monitor": monitors.c04_c06,
     },
     "C05": {
-        "level_text": "Strictly increasing accepted nonces per identity and at-most-once acceptance for every history (accepted_strictly_increasing, at_most_once, replay_rejected), rejection of stale nonces, independence of identities, at most one accepted copy under every schedule of optimistic transactions (racing_duplicates) and unobservability of the badger TTL for every history (ttl_safe) are Lean theorems about the nonce table model; the model is compared with both drivers at store level and through signed RPCs, and concurrent duplicates / TTL expiry are exercised on the real drivers.",
+        "level_text": "Strictly increasing accepted nonces per identity and at-most-once acceptance for every history (accepted_strictly_increasing, at_most_once, replay_rejected; replay_rejected_across_ops: also across any other store traffic - only CheckAndSaveNonce writes the nonce table, other_ops_keep_nonces), rejection of stale nonces, independence of identities, at most one accepted copy under every schedule of optimistic transactions (racing_duplicates) and unobservability of the badger TTL for every history (ttl_safe) are Lean theorems about the nonce table model; the model is compared with both drivers at store level and through signed RPCs, and concurrent duplicates / TTL expiry are exercised on the real drivers.",
         "level_note": "Theorems are about Store.checkAndSaveNonce, the optimistic-transaction model txStep and the expiring table model; tie: store and pool correspondence streams (sampled), concurrent duplicate submissions on both drivers, a real TTL expiry run. Trusted: badger conflict detection and TTL implementation.",
         "lean_modules": ["Vipnode.Props.C05"],
         "streams": store_streams(150, 1500) + pool_streams(100, 1000, gen="pool-nonce", prefix="nonce") + conc_streams(8, 120) + [
@@ -169,9 +174,9 @@ PROPS = {
         "monitor": monitors.c13_persist,
     },
     "C14": {
-        "level_text": "An invariant of the pending-reply table (distinct slot ids; every live call has a slot marked as waited-on; buffered messages only for answered ids; live ids distinct) is proved for every honest execution - every schedule of any number of concurrent callers and handlers, replies in any order, cancellations at any point, any table limit (inv_step, inv_run). From it: live_slot_protected, serve_never_blocks, ids_unique, reply_routing (own reply, other calls untouched, also when the reply arrives before the caller waits), cancel_returns_ctx_error, late_reply_never_misdelivered, handled_exactly_once, callback_completes (a handler calling back waits only on its own slot). The real jsonrpc2.Remote is driven through a harness codec that is the scheduler (the harness plays peer and network) and through concurrent storms over a pipe pair with the production table limit. Storms also with handlers that call back before answering, ping-pong recursions up to 80 deep, over Local and HTTP transports; reply and cancellation at the same instant.",
+        "level_text": "An invariant of the pending-reply table (distinct slot ids; every live call has a slot marked as waited-on; buffered messages only for answered ids; live ids distinct) is proved for every honest execution - every schedule of any number of concurrent callers and handlers, replies in any order, cancellations at any point, any table limit (inv_step, inv_run). From it: live_slot_protected, serve_never_blocks, ids_unique, reply_routing (own reply, other calls untouched, also when the reply arrives before the caller waits), cancel_returns_ctx_error, end_releases_every_call / end_every_call_returns / end_keeps_delivered_reply (Props/C14E: when the connection's read loop ends every call in progress returns - its delivered reply if there is one, the connection's error otherwise; stream op endserve), late_reply_never_misdelivered, handled_exactly_once, callback_completes (a handler calling back waits only on its own slot). The real jsonrpc2.Remote is driven through a harness codec that is the scheduler (the harness plays peer and network) and through concurrent storms over a pipe pair with the production table limit. Storms also with handlers that call back before answering, ping-pong recursions up to 80 deep, over Local and HTTP transports; reply and cancellation at the same instant.",
         "level_note": "Theorems are about Model/Rpc.lean, whose steps are the atomic regions of remote.go (r.mu critical sections, channel operations, the atomic id counter); the peer is honest (answers only issued ids, each at most once). Runtime behaviour the model cannot exhibit: goroutine scheduling and Go channel semantics are abstracted as atomic steps (supported by -race storms in the thorough tier).",
-        "lean_modules": ["Vipnode.Props.C14"],
+        "lean_modules": ["Vipnode.Props.C14", "Vipnode.Props.C14E"],
         "streams": [
             {"name": "rpc-sched", "component": "rpc", "cases": {"quick": 120, "thorough": 2000}},
             {"name": "rpc-storm", "component": "rpc", "gen": "rpc-storm", "cases": {"quick": 9, "thorough": 45}, "no_shrink": True, "race": True, "timeout": 400},
